@@ -684,6 +684,15 @@ package helper
 //@ requires[C15] x >= 0 && y > 0
 //@ ensures[C15] x / y >= 0
 
+//@ lemma div_mono(x real, y real, n int)
+//@ requires[C01,C15] x <= y && n >= 1
+//@ ensures[C01,C15] x / n <= y / n
+//@ lemma sma_mono(a stream, b stream, P int, k int)
+//@ requires[C01,C15] P >= 1 && k >= 0 && (forall j :: k <= j && j < k + P ==> a[j] <= b[j])
+//@ ensures[C01,C15] smaS(a, P)[k] <= smaS(b, P)[k]
+//@ use psum_window_le(a, b, k, k + P)
+//@ use div_mono(psum(a, k + P) - psum(a, k), psum(b, k + P) - psum(b, k), P)
+
 // a valid bar: low <= close <= high
 //@ macro barok(h, l, c, i) = l[i] <= c[i] && c[i] <= h[i]
 
